@@ -104,6 +104,14 @@ func VF_C05_AfterRemoveAll(kc, _ int) {
 	}
 	_, ok := q.RemoveHead()
 	vf.Assert("closed-and-drained", !ok)
+	// a second life: RemoveAll on the closed queue gives a fresh open one; it can be filled, closed and drained again
+	q.RemoveAll()
+	q.AddValue(x)
+	q.CloseQueue()
+	v2, ok2 := q.RemoveHead()
+	vf.Assert("second-life-value", vf.And(ok2, v2 == x))
+	_, ok3 := q.RemoveHead() // blocks for ever if the second CloseQueue did nothing
+	vf.Assert("second-life-closed-and-drained", !ok3)
 	vf.BudgetReset()
 	vf.Reach("end")
 }
